@@ -10,7 +10,8 @@ MODULE = 'KdVerif.Props.C02'
 NAMESPACE = 'KdVerif.C02'
 TRUSTED = ['construct 2.10 primitives re-implemented in Model/Construct.lean from construct/core.py (GreedyRange, Const, '
            'Padding, FixedSized+CString, Array, FormatField) and io.BytesIO in Model/Reader.lean; tied by the sections '
-           'v2, v2-malformed, v2-seq, v2-kevents (events, tables and outcome kind must agree; the read counters are compared in C06)',
+           'v2, v2-malformed, v2-seq, v2-seq-failed, v2-kevents (events, tables and outcome kind must agree; the read counters are compared in C06); '
+           'histories on one PyKdebugParser and dumps longer than the reader\'s blocks are judged on the code alone (v2-seq-api, v2-seq-traces, v2-blocks)',
            'file grammar Spec/ContainerV2.encodeV2 (diffed byte for byte against the harness encoder, section encv2)',
            'from_kd_buf as proved in C01 (decode_eq_spec / decode_rejects_other_lengths)']
 from .. import rdir as _rdir  # noqa: E402
@@ -237,10 +238,201 @@ def oracle_seq(c, ans):
     parts = ans.split(' || ')
     if len(parts) != len(c['files']):
         return ('v2:seq-shape', ans[:200])
-    for f, a in zip(c['files'], parts):
+    for i, (f, a) in enumerate(zip(c['files'], parts)):
+        if f is None:               # a dump that is not well-formed (cut, garbage): only what FOLLOWS it is judged
+            continue
         r = oracle_file(f, a, False)
         if r:
-            return (r[0] + '@seq', 'in a sequence of parses sharing one parser object: ' + r[1])
+            before = [k for k in c.get('kinds', [])[:i] if k != 'good']
+            return (r[0] + '@seq', 'in a sequence of parses sharing one parser object (parse %d of %d%s): %s'
+                    % (i + 1, len(parts), ', after a parse that ended in an exception: ' + '/'.join(before) if before else '', r[1]))
+    return None
+
+
+# ---------------------------------------------------------------------------------------- histories with failed parses
+
+BAD_KINDS = ['cut-record', 'cut-record', 'cut-record', 'cut-header', 'cut-threadmap', 'partial-tail', 'garbage', 'magic-only']
+
+
+def bad_dump(rng, kind):
+    """bytes of a dump whose parse ends in an exception (consumed up to it)."""
+    f = gen_file(rng, small=True)
+    if kind in ('cut-record', 'partial-tail') and not f['recs']:
+        f['recs'] = [gen_record(rng, 'nonzero').hex() for _ in range(rng.randrange(1, 4))]
+    if kind == 'cut-threadmap' and not f['threads']:
+        f['threads'] = [[7, 7, b'x'.hex()]]
+    b = file_bytes(f)
+    p0 = len(b) - 64 * len(f['recs'])
+    if kind == 'cut-record':        # the dump ends inside a record (any record, any byte)
+        return b[:p0 + 64 * rng.randrange(len(f['recs'])) + rng.choice([1, 7, 8, 17, 32, 51, 52, 63, rng.randrange(1, 64)])]
+    if kind == 'partial-tail':      # complete records, then 1..63 more bytes
+        return b + rng.randbytes(rng.randrange(1, 64))
+    if kind == 'cut-header':
+        return b[:rng.randrange(4, 288)]
+    if kind == 'cut-threadmap':
+        return b[:288 + rng.randrange(1, 32 * len(f['threads']))]
+    if kind == 'magic-only':
+        return b[:4]
+    return rng.choice([b'', b'\x00', b'\x00\x02\xaa', b'\x00\x04\xaa\x55', rng.randbytes(4)]) + rng.randbytes(rng.randrange(0, 90))
+
+
+def gen_history(rng, small=True):
+    """2..6 parses for ONE object: well-formed dumps and dumps that end in an exception, at least one well-formed dump behind
+    a failed one.  -> (files: description | None per step, hexes, kinds)"""
+    while True:
+        kinds = [rng.choice(['good', 'good'] + BAD_KINDS[:rng.choice([3, len(BAD_KINDS)])]) for _ in range(rng.randrange(2, 7))]
+        if any(a != 'good' and 'good' in kinds[i + 1:] for i, a in enumerate(kinds)):
+            break
+    files, hexes = [], []
+    for k in kinds:
+        if k == 'good':
+            f = gen_file(rng, small=small)
+            files.append(f)
+            hexes.append(file_bytes(f).hex())
+        else:
+            files.append(None)
+            hexes.append(bad_dump(rng, k).hex())
+    return files, hexes, kinds
+
+
+def consume_kevents(p, data):
+    evs, err = [], None
+    try:
+        for e in p.kevents(io.BytesIO(data)):
+            evs.append(e)
+    except Exception as e:
+        err = e
+    return evs, err
+
+
+def oracle_api_history(c):
+    """ONE PyKdebugParser serves every request of the history through kevents(); each well-formed dump must deliver exactly
+    its records and leave exactly its thread map, whatever was parsed (or failed to parse) before."""
+    from pykdebugparser.pykdebugparser import PyKdebugParser
+    p = PyKdebugParser()
+    tp, pn = prior_dicts(c['prior'])
+    p.threads_pids.update(tp)
+    p.pids_names.update(pn)
+    for i, (f, h) in enumerate(zip(c['files'], c['hexes'])):
+        evs, err = consume_kevents(p, bytes.fromhex(h))
+        if f is None:
+            continue
+        ans = '%s n=%d [%s] %s' % (ct.show_err(err), len(evs), ' '.join(ct.show_ev(e) for e in evs),
+                                    ct.show_tables(p.threads_pids, p.pids_names))
+        r = oracle_file(f, ans, False)
+        if r is None and [ct.ev_key(e) for e in evs] != [ct.dec_rec(bytes.fromhex(x)) for x in f['recs']]:
+            r = ('v2:event-values', 'the values of an event are not the four arguments of its record')
+        if r:
+            before = [k for k in c['kinds'][:i] if k != 'good']
+            return (r[0] + '@api-seq', 'request %d of %d on ONE PyKdebugParser (kevents)%s: %s'
+                    % (i + 1, len(c['files']), ', after a request that ended in an exception: ' + '/'.join(before) if before else '', r[1]),
+                    dict(c, files=c['files'][:i + 1], hexes=c['hexes'][:i + 1], kinds=c['kinds'][:i + 1]))
+    return None
+
+
+def gen_trace_history(rng):
+    """steps for formatted_traces on ONE PyKdebugParser: realistic dumps (pipeline.e2e_case), some cut inside a record."""
+    from .. import pipeline as PL
+    while True:
+        kinds = [rng.choice(['good', 'good', 'cut-record', 'cut-record', 'cut-header']) for _ in range(rng.randrange(2, 5))]
+        if any(a != 'good' and 'good' in kinds[i + 1:] for i, a in enumerate(kinds)):
+            break
+    steps = []
+    bits = ''.join(rng.choice('01') for _ in range(6))
+    for k in kinds:
+        e = PL.e2e_case(rng, cut=None, plain=1.0)
+        data = bytes.fromhex(e['whole'])
+        nrec = (len(data) - e['hdr']) // 64
+        if k == 'cut-record' and nrec:
+            data = data[:e['hdr'] + 64 * rng.randrange(nrec) + rng.randrange(1, 64)]
+        elif k != 'good':
+            data, k = data[:rng.randrange(4, min(e['hdr'], 288))], 'cut-header'
+        steps.append({'kind': k, 'hex': data.hex(), 'codes': e['codes']})
+    return {'steps': steps, 'bits': bits}
+
+
+def oracle_trace_history(c):
+    """formatted_traces of every well-formed dump on the ONE used object == on a fresh object (lines and final exception)."""
+    from .. import pipeline as PL
+    cfg = dict(PL.E2E_CONFIGS[0], bits=c['bits'])
+
+    def run(p, st):
+        lines, err = [], '-'
+        try:
+            for ln in p.formatted_traces(io.BytesIO(bytes.fromhex(st['hex'])), {int(k): v for k, v in st['codes'].items()}):
+                lines.append(ln)
+        except Exception as e:
+            err = PL.e2e_err_name(e)
+        return lines, err
+    used = PL.e2e_parser(cfg)
+    for i, st in enumerate(c['steps']):
+        got = run(used, st)
+        if st['kind'] != 'good':
+            continue
+        want = run(PL.e2e_parser(cfg), st)
+        if got != want:
+            return ('v2:traces-residue@api-seq', 'request %d of %d on ONE PyKdebugParser (formatted_traces, earlier requests: %s): '
+                    '%d lines, exception %s; a fresh object gives %d lines, exception %s'
+                    % (i + 1, len(c['steps']), '/'.join(s_['kind'] for s_ in c['steps'][:i]) or '-', len(got[0]), got[1],
+                       len(want[0]), want[1]), dict(c, steps=c['steps'][:i + 1]))
+    return None
+
+
+# ---------------------------------------------------------------------------------------- dumps longer than the reader's blocks
+
+def block_case_set(rng, tier, sizes):
+    """For every block size B the reader may work with: a history on ONE object — a dump with more than 2B bytes of records
+    (B > 2 MiB: more than B), the same dump cut inside a record behind B (consumed to its exception), a small dump, the big
+    dump again."""
+    cases = []
+    for B, origin in sizes:
+        n = (2 * B if B <= (2 << 20) else B) // 64 + 9
+        for api in (0, 1):
+            big = {'v': 2, 'seed': rng.randrange(1 << 30), 'threads': rng.randrange(0, 4), 'pad': rng.choice([0, 0, 3, 64]), 'n': n}
+            small = {'v': 2, 'seed': rng.randrange(1 << 30), 'threads': rng.randrange(0, 4), 'pad': rng.choice([0, 1]),
+                     'n': rng.randrange(1, 5)}
+            cut = B + 64 * rng.randrange(0, 4) + rng.randrange(1, 64)        # counted from the start of the record area
+            cases.append({'B': B, 'origin': origin, 'api': api,
+                          'steps': [[big, None], [big, cut], [small, None], [big, None]]})
+    return cases
+
+
+def oracle_blocks(c):
+    from pykdebugparser.kd_buf_parser import KdBufParser
+    from pykdebugparser.pykdebugparser import PyKdebugParser
+    tp, pn = {7: 7}, {7: 'stale'}
+    if c['api']:
+        p = PyKdebugParser()
+        p.threads_pids.update(tp)
+        p.pids_names.update(pn)
+        tp, pn = p.threads_pids, p.pids_names
+        parse = p.kevents
+    else:
+        parse = KdBufParser(tp, pn).parse
+    for i, (rc, cut) in enumerate(c['steps']):
+        data, info = ct.big_bytes(rc)
+        if cut is not None:
+            data = data[:info['p0'] + cut]
+        evs, err = [], [None]
+
+        def go():
+            try:
+                for e in parse(io.BytesIO(data)):
+                    evs.append(e)
+            except Exception as x:
+                err[0] = x
+        ct.guarded(go, 180)
+        if isinstance(err[0], ct.Watchdog):
+            return ('v2:hang@blocks', 'parse %d of the history does not return' % (i + 1))
+        if cut is not None:
+            continue
+        r = ct.judge_whole(info, evs, err[0], ct.show_tables(tp, pn), 'v2 dump')
+        if r:
+            return ('v2:%s@blocks' % r[0], 'parse %d of %d on ONE %s (%d records; earlier: %s): %s; block size aimed at %d (%s)'
+                    % (i + 1, len(c['steps']), 'PyKdebugParser (kevents)' if c['api'] else 'KdBufParser', rc['n'],
+                       ', '.join('%d records%s' % (r_['n'], '' if k is None else ' cut %d bytes into the record area' % k)
+                                 for r_, k in c['steps'][:i]) or '-', r[1], c['B'], c['origin']),
+                    dict(c, steps=c['steps'][:i + 1]))
     return None
 
 
@@ -360,6 +552,44 @@ def correspondence(rep, rng, tier):
     run_section(rep, 'v2-seq', seqs, line_seq, impl_seq, oracle_fn=oracle_seq,
                 rule='2-4 successive parses on ONE KdBufParser sharing polluted dicts: after each parse the tables are '
                      'exactly that file\'s thread map (no residue)')
+    hist = []
+    for _ in range(150 if quick else 3000):
+        fs, hexes, kinds = gen_history(rng)
+        hist.append({'files': fs, 'prior': gen_prior(rng), 'hexes': hexes, 'kinds': kinds})
+    run_section(rep, 'v2-seq-failed', hist, line_seq, impl_seq, oracle_fn=oracle_seq,
+                nontrivial_fn=lambda c, got: True,
+                kind_fn=lambda c, got: 'after-' + next(k for k in c['kinds'] if k != 'good'),
+                rule='2-6 successive parses on ONE KdBufParser, each consumed to its end or to its exception: well-formed dumps '
+                     'mixed with dumps cut inside a record (any byte of any record) / inside the header / inside the thread map, '
+                     'dumps with a partial trailing record, a bare magic, garbage; at least one well-formed dump follows a failed '
+                     'parse; every answer compared with the model; oracle: every well-formed dump of the history delivers exactly '
+                     'its records and leaves exactly its thread map (no residue of an earlier parse, failed ones included)')
+    api_hist = []
+    for _ in range(150 if quick else 3000):
+        fs, hexes, kinds = gen_history(rng)
+        api_hist.append({'files': fs, 'prior': gen_prior(rng), 'hexes': hexes, 'kinds': kinds})
+    core.run_code_section(rep, 'v2-seq-api', api_hist, oracle_api_history,
+                          kind_fn=lambda c: 'after-' + next(k for k in c['kinds'] if k != 'good'),
+                          rule='code-only section: the same histories as v2-seq-failed as successive kevents() requests on ONE '
+                               'PyKdebugParser (each iterated to its end or its exception); every well-formed dump: events (all '
+                               'fields incl. values) == its records decoded with int.from_bytes, tables == its thread map')
+    tr_hist = [gen_trace_history(rng) for _ in range(60 if quick else 1200)]
+    core.run_code_section(rep, 'v2-seq-traces', tr_hist, oracle_trace_history,
+                          kind_fn=lambda c: 'after-' + next(s_['kind'] for s_ in c['steps'] if s_['kind'] != 'good'),
+                          rule='code-only section: formatted_traces() requests on ONE PyKdebugParser over realistic dumps (system '
+                               'calls, lookups, thread names), some cut inside a record or the header; for every well-formed dump '
+                               'the lines and the final exception equal those of a fresh PyKdebugParser')
+    from .. import readprobe
+    sizes = readprobe.block_sizes(tier, version=2)
+    rep.notes.append(readprobe.describe(tier))
+    core.run_code_section(rep, 'v2-blocks', block_case_set(rng, tier, sizes), oracle_blocks,
+                          kind_fn=lambda c: ('api' if c['api'] else 'parser') + ':' + c['origin'].split(':')[0],
+                          rule='code-only section (inputs too long for a protocol line): for every block size B the reader may '
+                               'work with (request sizes recorded from the real reader, tools/kdv/readprobe.py; integer constants '
+                               'of its source and their products with 64; thorough tier / changed source: 2^9..2^20) a history on '
+                               'ONE KdBufParser and on ONE PyKdebugParser: a dump with more than 2B bytes of records, the same dump '
+                               'cut inside a record behind B (consumed to its exception), a small dump, the big dump again; every '
+                               'well-formed dump: all fields of the events == its records decoded, tables == its thread map')
     kev = [mk_case(gen_file(rng, small=rng.random() < 0.5), gen_prior(rng)) for _ in range(200 if quick else 3000)]
     run_section(rep, 'v2-kevents', kev, line_kev, impl_kev, oracle_fn=oracle_kev,
                 rule='the same through PyKdebugParser().kevents(BytesIO) with pre-polluted parser tables')
@@ -382,7 +612,23 @@ def replay(path):
     if sec == 'end-to-end':
         from .. import pipeline as _PL
         return _PL.replay_e2e(case, 'C02', path)
+    code_only = {'v2-seq-api': oracle_api_history, 'v2-seq-traces': oracle_trace_history, 'v2-blocks': oracle_blocks}
+    if sec in code_only:
+        if sec == 'v2-blocks':
+            print('history on ONE %s:' % ('PyKdebugParser (kevents)' if case['api'] else 'KdBufParser'), case['steps'])
+        elif sec == 'v2-seq-api':
+            print('history on ONE PyKdebugParser (kevents):', list(zip(case['kinds'], [h[:160] for h in case['hexes']])))
+        else:
+            print('history on ONE PyKdebugParser (formatted_traces):', [(s_['kind'], s_['hex'][:160]) for s_ in case['steps']])
+        res = code_only[sec](case)
+        if res:
+            print('failing:', res[:2])
+            print(f'VIOLATION property=C02 replay={path}')
+            return 1
+        print('no violation on this input')
+        return 0
     fns = {'v2': (line_v2, impl_v2, lambda c, g: oracle_file(c['file'], g, False)),
+           'v2-seq-failed': (line_seq, impl_seq, oracle_seq),
            'v2-junk': (line_v2, impl_v2, lambda c, g: oracle_file(c['file'], g, False)),
            'v2-k1': (line_v2, impl_v2, lambda c, g: oracle_file(c['file'], g, True)),
            'v2-malformed': (line_v2, impl_v2, None), 'v2-seq': (line_seq, impl_seq, oracle_seq),
@@ -414,7 +660,9 @@ LEVEL_TEXT = ('Lean theorems over the reader/construct model of parse_v2 for ALL
               'records, no container exception), e2e_threadmap_of_encoded (thread map half without the K1 hypothesis), '
               'e2e_lines_of_encoded (lines of the file\'s bytes = line builder over traces of thread map + decoded records, '
               'only the trace layer\'s exception); the model is tied to the code by differential runs on generated '
-              'files, malformed files, parse sequences and the public kevents() entry point, including read counters.'
+              'files, malformed files, parse sequences (incl. histories in which earlier parses ended in an exception) and the public kevents() '
+              'entry point; code-only oracles over histories on one PyKdebugParser and over dumps longer than every block size the reader '
+              'requests (read-size probing, tools/kdv/readprobe.py).'
               " TRANSLATION TIE: the source text of parse / parse_v2 / parse_v3 (to the end of its chunk loop) / seek_until / set_thread_map is translated on every run (tools/gen_pyir_rd.py, pure ast) into the Python-subset IR of Model/PyIRRd (statements over the model's reader: read, while/for/break/raise/yield, bytes slices and comparisons, construct parsers as primitives; big-step interpreter); source_is_expected_ir: the generated program is the one of Spec/PyIRRdExpected; parse_is_interpreted_source: for EVERY byte string and prior state the model's parse IS that program run by the interpreter (+ the hand-modelled tail of parse_v3), with the same read calls; per piece: set_thread_map_ir_eq_model, parse_dispatch_ir_eq_model, parse_v2_ir_eq_model.")
 LEVEL_NOTE = ('Partial: v2_events_partial carries the hypothesis "no records, or first record byte != 0" — without it the real '
               'code loses or misaligns records (known finding K1, reproduced on model and code every run). Trusted: Lean kernel, '
